@@ -42,6 +42,13 @@ def check(v, tier, seed):
         v.violation({"what": "decoding a valid kD-tree cloud with many attribute components: peak of live memory exceeds K0 + K*(input length + declared counts)",
                      "record": {k: bad[k] for k in bad if k != "sv"} if bad else None}, tags={"kind": "C18", "input": "kd_tree_many_components"})
     v.cov["wide_kd_probes"] = len(wrecs)
+    # nested metadata whose levels each announce as many sub-metadata as the input has bytes left (finding F26, fixed): appended to the probes below
+    fatf = os.path.join(wd, "fatnest.ndjson")
+    rc, out = vlib.run("%s fatnest > /dev/null" % exe, timeout=600, env={"VERIF_RECORDS": fatf})
+    if rc != 0:
+        raise vlib.Infra("drv_fault fatnest rc=%d %s" % (rc, out[-400:]))
+    with open(merged, "a") as o:
+        o.write(open(fatf).read())
     recs, n = faultcommon.validate(v, "C18", merged, "an allocation (or the peak of live memory) while decoding exceeds K0 + K*(input length + declared counts)")
     pr = [x for x in recs if x["e"] == "Probe" and x["allocs"]]
     v.cov["evaluations"] = probes
